@@ -15,6 +15,7 @@ floats, memory, calls, and everything in the compiler.
 import Wz.Spec.Wasm
 import Wz.Proofs.C01_straight
 import Wz.Gen.NopElim
+import Wz.Gen.SideEffects
 
 namespace Wz.C01
 open Wz.Spec Wz.Spec.Wasm Wz.Model.InterpStraight
@@ -118,6 +119,30 @@ theorem nop_elim_sound64 (x : BitVec 64) (v : Nat) (h : Wz.Gen.NopElim.fires tru
 /-- non-vacuity, and the classic wrong modulus: a 64-bit shift by 32 is NOT a no-op -/
 example : Wz.Gen.NopElim.fires true 64 = true ∧ Wz.Gen.NopElim.fires true 32 = false ∧
     Int.ishl (1#64) (BitVec.ofNat 64 32) ≠ 1#64 := by decide
+
+/-! ### dead-code elimination never removes an instruction that can trap, write or transfer control -/
+
+/-- SSA opcodes whose execution is observable even when their result is unused: calls, stores, traps
+(`Exit…`), integer division/remainder (trap on zero / overflow), trapping float-to-int conversions,
+atomics and control transfers.  `passDeadCodeEliminationOpt` keeps exactly the instructions whose entry
+in `instructionSideEffects` is not `sideEffectNone`. -/
+def mustKeep : List String :=
+  ["Jump", "Call", "CallIndirect", "Store", "Istore8", "Istore16", "Istore32", "ExitWithCode",
+   "ExitIfTrueWithCode", "Return", "Brz", "Brnz", "BrTable", "FcvtToSint", "FcvtToUint", "Sdiv", "Srem",
+   "Udiv", "Urem", "AtomicRmw", "AtomicStore", "AtomicCas", "Fence", "TailCallReturnCall",
+   "TailCallReturnCallIndirect"]
+
+def classOf (op : String) : Option String :=
+  (Wz.Gen.SideEffects.table.find? (·.1 == op)).map (·.2)
+
+/-- on the regenerated table: every such opcode is registered and is not eliminable -/
+theorem dce_keeps_observable_instructions :
+    mustKeep.all (fun op => match classOf op with
+      | some c => c != "sideEffectNone"
+      | none => false) = true := by decide
+
+/-- non-vacuity: the table does mark pure instructions as eliminable -/
+example : classOf "Iadd" = some "sideEffectNone" := by decide
 
 /-! ### the reference semantics -/
 
